@@ -71,6 +71,9 @@ def trees():
                               "REUSE.toml": 'version = 1\n\n[[annotations]]\npath = ["b.py", "c/**"]\nprecedence = "aggregate"\nSPDX-FileCopyrightText = "2020 Jane"\n'
                                             'SPDX-License-Identifier = ["MIT OR 0BSD", "0BSD OR MIT", "0BSD  OR  MIT"]\n',
                               "LICENSES/MIT.txt": "mit\n", "LICENSES/0BSD.txt": "0bsd\n"}
+    # several licence texts without a file extension (reported in a section of their own, which is built from a mapping)
+    t["no-extension"] = {"a.py": H, "b.py": H.replace("MIT", "0BSD"), "c.py": H.replace("MIT", "ISC AND Zlib"), "LICENSES/MIT": "mit\n", "LICENSES/0BSD": "0bsd\n",
+                         "LICENSES/ISC": "isc\n", "LICENSES/Zlib": "zlib\n", "LICENSES/Apache-2.0": "unused\n", "LICENSES/CC0-1.0": "unused too\n"}
     t["git"] = {"a.py": H, "ignored.log": "x\n", "d/b.py": H, "d/c.log": "x\n", ".gitignore": "*.log\nbuild/\ndist/\ncache/\n", "LICENSES/MIT.txt": "mit\n",
                 "build/out.py": "no info\n", "dist/pkg.py": "no info\n", "cache/c.py": "no info\n"}
     t["git-submodule"] = {"a.py": H, "src/b.py": H, "LICENSES/MIT.txt": "mit\n"}
@@ -128,7 +131,10 @@ def norm_lint(text, cwd, root_abs):
            "summary": {k: (sorted(v) if isinstance(v, list) else v) for k, v in data["summary"].items()},
            "nc": {}}
     for k, v in nc.items():
-        if isinstance(v, dict):
+        if k == "licenses_without_extension":
+            # (relative to the root, like files[].path - not to the working directory like the other paths)
+            out["nc"][k] = dict(sorted(v.items()))
+        elif isinstance(v, dict):
             out["nc"][k] = {kk: (sorted(relp(x) for x in vv) if isinstance(vv, list) else relp(vv)) for kk, vv in sorted(v.items())}
         elif k in ("missing_copyright_info", "missing_licensing_info", "read_errors"):
             out["nc"][k] = sorted(relp(x) for x in v)
@@ -147,6 +153,8 @@ def observe(root, name, argv_root=None, cwd=None, pool=None, listing=None, multi
     """Run lint --json and spdx under the given environment; returns the pair
     of normalised observations."""
     root_abs = str(root)
+    # the human-readable formats name files relative to the working directory: observed where that is the root itself
+    with_plain = argv_root is None and cwd is None
     argv_root = argv_root if argv_root is not None else ["--root", root_abs]
     cwd = cwd or root_abs
     mp_flag = [] if multiprocessing else ["--no-multiprocessing"]
@@ -162,9 +170,15 @@ def observe(root, name, argv_root=None, cwd=None, pool=None, listing=None, multi
             stack.enter_context(permuted_scandir(listing))
         lint = run_cli([*argv_root, *mp_flag, *extra, "lint", "--json"], cwd=cwd)
         spdx = run_cli([*argv_root, *mp_flag, *extra, "spdx"], cwd=cwd)
+        plain = None
+        if with_plain:
+            texts = [run_cli([*argv_root, *mp_flag, *extra, "lint", *fmt], cwd=cwd) for fmt in ([], ["--lines"])]
+            if any(t.exc for t in texts):
+                return ("failed", texts[0].brief(), texts[1].brief())
+            plain = "\n=====\n".join(t.stdout for t in texts).replace(root_abs, "ROOT")
     if lint.exc or lint.exit_code not in (0, 1) or spdx.exc or spdx.exit_code != 0:
         return ("failed", lint.brief(), spdx.brief())
-    return (norm_lint(lint.stdout, cwd, root_abs), norm_spdx(spdx.stdout))
+    return (norm_lint(lint.stdout, cwd, root_abs), norm_spdx(spdx.stdout), plain)
 
 
 def n_jobs(name):
@@ -253,6 +267,8 @@ def cases(tier, seed):
 
 
 def differs(a, b):
+    if a[:2] == b[:2] and (len(a) < 3 or len(b) < 3 or a[2] is None or b[2] is None):
+        return None
     if a == b:
         return None
     if isinstance(a, tuple) and isinstance(b, tuple) and a[0] != "failed" and b[0] != "failed":
@@ -260,6 +276,13 @@ def differs(a, b):
             for k in ("files", "nc", "summary", "recommendations"):
                 if a[0][k] != b[0][k]:
                     return f"lint {k}: {canon(a[0][k])[:500]} vs reference {canon(b[0][k])[:500]}"
+        if a[0] == b[0] and a[1] == b[1]:
+            if len(a) < 3 or len(b) < 3 or a[2] is None or b[2] is None:
+                return None
+            for x, y in zip(a[2].split("\n"), b[2].split("\n")):
+                if x != y:
+                    return f"lint (plain / --lines) line {x!r} vs reference {y!r}"
+            return "lint (plain / --lines) output of different length"
         la, lb = a[1].split("\n"), b[1].split("\n")
         for x, y in zip(la, lb):
             if x != y:
